@@ -231,8 +231,32 @@ impl Inst {
                 regs.push(RegRef { map: md, reg: r, kind: kind_of(r.kind, md.endian) });
             }
         }
-        // independent spec of the size and of the initial rights
-        let size = desc.maps.iter().map(|m| map_desc(m)).map(|m| m.base_fn + m.size_fn).max().unwrap();
+        // independent spec of the size (from the DECLARATIONS: base + explicit or running offset + len,
+        // not from the generated base()/size()/ADDRESS constants) and of the initial rights
+        let spec_end = |m: &MapDesc| -> usize {
+            let (mut running, mut end) = (0usize, 0usize);
+            for r in m.regs {
+                let o = r.offset.unwrap_or(running);
+                running = o + r.len;
+                end = end.max(running);
+            }
+            m.base + end
+        };
+        let size = desc.maps.iter().map(|m| spec_end(map_desc(m))).max().unwrap();
+        // a memory whose size or register placement is not the specified one cannot be driven
+        // further (every range below assumes the layout): report it concretely, skip this memory,
+        // keep going with the rest of the family
+        let bad_map = desc.maps.iter().map(|m| map_desc(m)).find(|m| m.base_fn + m.size_fn != spec_end(m)
+            || m.regs.iter().any(|r| r.address + r.length > size));
+        if mem.raw().len() != size || bad_map.is_some() {
+            let which = bad_map.map_or("-", |m| m.name);
+            cx.rep.expect(req, format!("ok size={} raw={} prot=-", mem.raw().len(), hash16(fnv_bytes(FNV_INIT, mem.raw()))));
+            cx.rep.violation(json!({"kind": "layout", "what": "memory-size", "mem": name, "map": which}),
+                &format!("size()/layout wrong for map {which}: Memory {name} has {} bytes, the declarations need {size}", mem.raw().len()),
+                json!({"mem": name, "ops": []}));
+            cx.rep.count("memory-skipped:layout-wrong");
+            return None;
+        }
         let mut rights = vec![AccessRight::NA; size];
         for r in &regs {
             for i in r.range() {
